@@ -22,6 +22,9 @@ def gen_fn(r, v, weights):
         eid, cls = gen.some_id(r, v, "epic")
         if r.p(10):
             eid = ""
+        elif v.epics and r.p(12):
+            # the id of a live epic with blanks around it is not that id: accepted or refused, what is recorded must name a live epic
+            eid = r.pick([" %s", "%s ", "%s\n", "\t%s ", " %s "]) % r.pick(v.epics)
         if req.get("json") is not None:
             req["json"]["epic"] = eid
         elif eid != "":
